@@ -37,6 +37,7 @@ def default_profile(rng, tier="quick"):
         "const_bounds": rng.random() < 0.3,
         "lb_step": rng.random() < 0.5,  # lb != 0 / step != 1 allowed
         "max_stmts": 24,
+        "repeat_bias": rng.choice([0, 0, 0.3, 0.6]),
     }
     if tier == "thorough" and rng.random() < 0.3:
         # deeper / larger programs in the thorough tier
@@ -53,6 +54,7 @@ class AccfgGen:
         self.n = 0
         self.tag = 0
         self.count = 0
+        self.history: dict = {}
 
     def fresh(self, p):
         self.n += 1
@@ -82,6 +84,15 @@ class AccfgGen:
         if k == "sl":
             a = r.randrange(p["n_acc"])
             st = {"k": "sl", "acc": a, "vals": [self.pick(scope) for _ in range(p["n_fields"][a])], "gap": []}
+            prev = self.history.get(a)
+            if prev and p.get("repeat_bias") and r.random() < p["repeat_bias"]:
+                # the same configuration again (possibly with one field changed): where deduplication has most to remove.
+                # Values that are not visible here (defined in a sibling region) are replaced by fresh picks.
+                vals = [v if v in scope else self.pick(scope) for v in r.choice(prev)]
+                if r.random() < 0.5:
+                    vals[r.randrange(len(vals))] = self.pick(scope)
+                st["vals"] = vals
+            self.history.setdefault(a, []).append(list(st["vals"]))
             if p.get("n_launch"):
                 st["lvals"] = [r.choice(p["launch_pool"]) for _ in range(p["n_launch"][a])]
             if p.get("prethread") and r.random() < p["prethread"]:
